@@ -91,6 +91,108 @@ CHECKS = {
             "nearest-time ties and the apex helper on single-peaked sequences.",
             "The scan applies the same comparison predicate row by row.",
             "3/C20"),
+    "C01": ("differential run of the real solver at 3-4 step sizes against an independent RK4 integration of the stated ODE "
+            "(and the closed-form parabola in vacuum); bounded convergence test",
+            "Hundreds of random shots (tables, BC, speeds, look/zero/relative/cant angles, atmospheres incl. vacuum, 0-4 wind "
+            "segments with boundaries on/inside/beyond the range) are fired by the real solver at h0, h0/2, h0/4 (thorough h0/8, "
+            "four base steps); every recorded row is compared component-wise (height, lateral, speed, time) with an RK4 "
+            "reference written from the property text: default-step error <= 3 x change-on-halving + floor, error shrinks by "
+            ">= 1/4 per halving, vacuum rows within the exact first-order Euler error of the parabola, muzzle row = stated "
+            "initial state.  'Converges' is decided on 2-3 halvings only (bounded restatement).",
+            "Reference certifies itself by a second run at 2 h_ref (difference x10 enters every tolerance); drag_by_mach and the "
+            "atmosphere's density/sound-speed function are black boxes (C08/C09); twist 0 (spin drift is C05).",
+            "3/C01"),
+    "C02": ("fire-back of every returned zero with the step trace of that fire (M-STEP) bounding the allowed miss; bracketing "
+            "search with Calculator.fire as a black box adjudicates every raise; stored zero compared around failures",
+            "Random un-canted shots x look angles to +-59 deg x distances 5 yd .. reach x winds x sight heights x stored zeros x both "
+            "APIs: each returned elevation is fired back and the row at the aim point must be within accuracy + 1.25 x (largest "
+            "overshoot the finder's end condition permits x relative slope + curvature remainder); each raise is judged by an "
+            "independent bracket/bisect search (violation only if a robust solution exists); failed attempts must leave the stored "
+            "zero untouched; returned angles for unreachable targets are violations.",
+            "Known finding C02.iteration-cap is classified by mechanism (cap hit, reachable, cured by cap x 10, strongly curved "
+            "trajectory).  Precondition judged with one fire along the sight line.",
+            "3/C02"),
+    "C03": ("row-grid checker on every successful plain fire(); per-step advance and time step from the M-STEP trace of that "
+            "same fire",
+            "Thousands of fires in the decisive classes (tail wind on slow projectiles, head, cross), ranges feet to miles, steps "
+            "that do/do not divide the range, in any unit or bare, default step, time steps: exactly one row per multiple k*step "
+            "(1e-9), at most one further multiple within one integration step, strictly increasing distance and time, muzzle row = "
+            "canted sight offset / launch speed / t=0, 11 rows by default, time gaps <= step + 2 integration steps.",
+            "Only fires that return normally and end moving forward are judged; requested range/step read through the library's "
+            "own conversion (C06).",
+            "3/C03"),
+    "C04": ("step-budget monitor (one Atmo call per integration step, M-ATMO) enforcing a bounded restatement of termination + "
+            "truthfulness checker of RangeError + twin run with bounded-relaxed limits",
+            "Hostile launches (vertical, downward, muzzle speeds 0..51 ft/s, strong head winds) x limit triples x ranges beyond "
+            "reach x plain/extra: fire() must finish within 1.5 x P/calc_step + 1000 steps (P from an independent coarse RK4 flight "
+            "to the first limit of this configuration); on RangeError the reason must be the first limit (velocity, drop, altitude) "
+            "the last row really violates, last_distance that row's, earlier rows respect all limits and are bit-identical to the "
+            "same request on a twin calculator with relaxed limits; normal returns reach the range.",
+            "'Terminates' is decided only up to the step budget; 'without the limit' = vmin 0 and drop/altitude 2000 ft lower.",
+            "3/C04"),
+    "C05": ("contract (icontract postconditions, M-ROW) on the real create_trajectory_row for every row created anywhere + "
+            "API-level recomputation with the Shot in hand (local speed of sound, Litz/Miller spin drift, twist-0 twin)",
+            "Every row the solver creates (range, interpolated, event, terminal, 'second point') passes through a postcondition "
+            "with its state in hand: Mach, energy, OGW, target drop, look distance, both adjustments (exactly 0 at x=0), angle, "
+            "windage = z + spin drift, round trips, and the spin drift handed in vs Litz/Miller; returned rows are re-checked "
+            "against the atmosphere's local speed of sound and a twist-0 twin run.",
+            "Energy accepted between the documented constant 450400 and the exact 2*7000*g0; spin-drift clause skipped in vacuum; "
+            "zero contract evaluations => inconclusive.",
+            "3/C05"),
+    "C07": ("differential run of an all-explicit workload under defaults / 3 presets / random slot assignments (bit equality of "
+            "every number) + bare-vs-explicit twin construction at every float-or-quantity parameter site (deep snapshots)",
+            "(A) random workloads touching every result-producing API with only explicit quantities are re-executed under the "
+            "shipped presets and random assignments of all 15 slots; every number (rows, zero, danger space indices, click "
+            "counts, model tables, atmosphere caches) must be bit-identical to the default run. (B) 42 parameter sites x 8 values "
+            "(0, -0.0, negatives, ...) x assignments: bare number vs slot_unit(number) must give equal deep snapshots or the same "
+            "exception type.",
+            "fire(trajectory_step=0) is the documented 'not given' sentinel; danger_space target_height accepted in either the "
+            "distance or target_height slot; signed zeros normalised in part B.",
+            "3/C07"),
+    "C10": ("history monitor + executable model (same op on a deep copy with a fresh calculator) with deep argument/table/global "
+            "snapshots around every op; thread rounds with switch interval 1e-6 and sys.monitoring yield injection",
+            "Random histories of fire/zero/elevation/danger-space/model-construction/raising ops over pools of shots sharing "
+            "weapons, ammo, atmospheres and DragDataPoint objects and 4 differently configured long-lived calculators: every result "
+            "bit-identical to the model, nothing in the pool / module tables / process globals changes except a zeroed weapon's "
+            "stored zero.  Thread rounds: 8 threads own a calculator each, zero private copies and fire shared shots while LINE "
+            "callbacks inject yields inside library code; results equal sequential goldens; evidence reports distinct switch sites.",
+            "Only schedules of calculators owned by distinct threads (as stated); interleavings are sampled, not enumerated.",
+            "3/C10"),
+    "C11": ("metamorphic: same shot/config fired under families of requests, rows at common distances compared",
+            "For each random shot a base request is compared with extra data, longer range, coarser/finer/non-nested/sub-maximum "
+            "steps, time steps and beyond-reach ranges: rows at the same distance agree in 9 columns to 1e-9, subset relations hold, "
+            "extra-data output = plain rows + event-flagged rows only.",
+            "Rows matched by distance among RANGE-flagged rows; terminal and flag-less 'second point' rows excluded.",
+            "3/C11"),
+    "C12": ("exact metamorphic relations between runs on related wind lists (bit equality) + sign relations vs the no-wind twin + "
+            "RK4 reference for segment boundaries",
+            "Permutation (distinct until-distances), zero-speed == none, appended zero wind, split segment, causality beyond D, "
+            "left-right mirror (windage negated, all else equal), cross/head/tail signs on flat fire, a non-vacuity relation "
+            "(different winds beyond D do change rows beyond D), and windage/time at every row against the independent "
+            "reference with winds applied by segment in order of distance.",
+            "Sign of drop judged only where the physical effect exceeds the solver's own wind-dependent first-order error; sign "
+            "relations use a horizontal bore and a shipped table (drag force increasing with air speed).",
+            "3/C12"),
+    "C15": ("hooked integration trace (M-STEP) of the very fire under test vs the emitted flagged rows; crossings recomputed from "
+            "the trace alone",
+            "Random shots (sight above/on/below bore, barrel above/below the line, look +-45 deg, zeroed/un-zeroed, super/trans/"
+            "subsonic, dives that accelerate up through Mach 1, early-ending ranges/limits) fired with extra data: exactly one "
+            "ZERO_UP / ZERO_DOWN row iff the trace crosses the sight line up / then down beyond the muzzle, one MACH row per "
+            "falling sonic crossing, each inside its crossing step (time window, distance to the line <= one step x relative slope, "
+            "|Mach-1| <= one step's deceleration), time order, HitResult.zeros().",
+            "Launch exactly on the line: first-step events not asserted either way; terminal RangeError row not judged.",
+            "3/C15"),
+    "C18": ("config differential inside random set/reset/create histories observed through the per-step advance of traced fires "
+            "(M-STEP), limits, vacuum gravity, zero accuracy / cap; exhaustive name x case x blanks x channel parser sweep",
+            "Each calculator's effective maximum step is observed (no advance above it, median advance = half of it) inside random "
+            "histories of global-step set/reset and calculator creation; limits/gravity/accuracy/cap compared between an overriding "
+            "and a default calculator on the same shot; defaults read from a fresh interpreter; non-positive global steps rejected; "
+            "dict mutation after construction ineffective.  Parsing: all 41 enumeration names + 116 documented aliases x 5 letter "
+            "cases x 3 blank forms through _parse_unit, PreferredUnits.set, basicConfig(dict), TOML preferred_units, TOML "
+            "calculator step units, _parse_value (4 numeric prefixes) - exhaustive; unknown names must raise or change nothing.",
+            "Known finding C18.slow-air-speed-step classified by start-of-step air speed (v^2 < 1.1 g calc_step); alias "
+            "expectations from vf/golden/unit_aliases.json.",
+            "3/C18"),
 }
 
 PENDING = {}
